@@ -4,6 +4,7 @@ import re
 import shutil
 import subprocess
 import time
+import uuid
 
 JAR = "/opt/veriftools/tla/tla2tools.jar"
 COMMUNITY = "/opt/veriftools/tla/CommunityModules-deps.jar"
@@ -42,7 +43,7 @@ def run(module, cfg, workdir, workers=8, mode="bfs", timeout=900, extra=None, ja
         coverage=False, env_extra=None, heap="6g", deadlock=False):
     """module: path to the root .tla (its directory and SPECS are searched); cfg: path to .cfg"""
     os.makedirs(workdir, exist_ok=True)
-    meta = os.path.join(workdir, "meta_%d_%d" % (os.getpid(), int(time.time() * 1000) % 100000000))
+    meta = os.path.join(workdir, "meta_%d_%s" % (os.getpid(), uuid.uuid4().hex[:12]))
     lib = os.pathsep.join([SPECS, os.path.dirname(os.path.abspath(module))])
     cmd = ["java", "-Xmx" + heap, "-XX:+UseParallelGC", "-DTLA-Library=" + lib]
     if java_opts:
